@@ -1,5 +1,5 @@
-//! Families `vfy` (C05), `vfy4` (C04), `vfy3` (C03) and `vfyx` (replays of candidate defects, not part
-//! of any check): the REAL `winter_verifier::verify` against the Lean model of the whole verifier
+//! Families `vfy` (C05), `vfy4` (C04), `vfy3` (C03) and `vfyx` (the classes found through the model in
+//! one place, for replays): the REAL `winter_verifier::verify` against the Lean model of the whole verifier
 //! (lean/Wf/Model/Verifier.lean, driver key `vfy`).
 //!
 //! Statements are generated AIR descriptions (`genair.rs`; base field f64, extension degrees 1..3, no
@@ -98,6 +98,7 @@ fn panic_file() -> String { PANIC_FILE.lock().map(|g| g.clone()).unwrap_or_defau
 
 fn deser_class(msg: &str) -> &'static str {
     if msg.starts_with("trace length is too large") { "lde" }
+    else if msg.starts_with("number of queries") { "queries" }
     else if msg.starts_with("number of unique queries") { "nq0" }
     else if msg.starts_with("main trace segment query") { "main-queries" }
     else if msg.starts_with("auxiliary trace segment query") { "aux-queries" }
@@ -243,6 +244,12 @@ fn pub_text(claimed: &[Vec<u128>]) -> String {
 
 fn request(h: &Honest, acc: &Acc, bytes: &[u8]) -> String {
     format!("vfy {} {} {} {}", h.inst.desc.text(), pub_text(&h.pub_in.claimed), acc.show(), hex(bytes))
+}
+
+/// a request whose first word names the mutation class (ignored by the model; the keys of recorded
+/// findings in known_findings.txt start with `vfy_<class>_`)
+fn request_tagged(tag: &str, h: &Honest, acc: &Acc, bytes: &[u8]) -> String {
+    format!("vfy {tag} {} {} {} {}", h.inst.desc.text(), pub_text(&h.pub_in.claimed), acc.show(), hex(bytes))
 }
 
 // ---------------------------------------------------------------------------------------------
@@ -577,21 +584,26 @@ fn one(rng: &mut Rng, out: &mut Out, mode: Mode, it: usize) {
     muts.extend(structured(rng, &h));
     for m in muts {
         if mode == Mode::C03 && !m.substitution { continue; }
-        // C04: two classes are accepted-but-different on the unchanged tree (reported as candidate
-        // findings, replayed by family `vfyx`): the FRI partition exponent (unused when the mapping of
-        // the queried positions is the identity, always so without FRI layers) and the four option bytes
-        // that ProofOptions::to_elements does not put into the public-coin seed (partition count, hash
-        // rate, constraint / DEEP batching method) when the verifier accepts both option sets and the
-        // changed option has no effect on this proof (same partition sizes; coefficients that only
-        // multiply identically vanishing terms)
-        if mode == Mode::C04 && (m.class == "fri:num-partitions" || m.class == "ctx:opt:partitions:accepted" || m.class == "ctx:opt:hash-rate:accepted"
-            || m.class == "ctx:opt:constraint-batching:accepted" || m.class == "ctx:opt:deep-batching:accepted") { continue; }
-        // ... also when a byte-level class happens to change nothing but the FRI partition exponent
-        if mode == Mode::C04 && m.bytes.len() == h.bytes.len() {
-            let np_pos = h.bytes.len() - 9;
-            let mut back = m.bytes.clone();
-            back[np_pos] = h.bytes[np_pos];
-            if back == h.bytes && m.bytes != h.bytes { out.count("c04:fri-num-partitions-only-skipped"); continue; }
+        // C04: two classes are accepted-but-different on the unchanged tree (recorded findings of C04,
+        // known_findings.txt keys `vfy_npart_*` / `vfy_optbyte_*`): the FRI partition exponent (unused
+        // when the mapping of the queried positions is the identity, always so without FRI layers) and
+        // the four option bytes that ProofOptions::to_elements does not put into the public-coin seed
+        // (partition count, hash rate, constraint / DEEP batching method) when the verifier accepts
+        // both option sets and the changed option has no effect on this proof (same partition sizes;
+        // coefficients that only multiply identically vanishing terms).  They run under their own
+        // class names and are judged like every other mutant.
+        let mut tag: Option<&'static str> = None;
+        if mode == Mode::C04 {
+            if m.class == "fri:num-partitions" { tag = Some("npart"); }
+            if m.class == "ctx:opt:partitions:accepted" || m.class == "ctx:opt:hash-rate:accepted"
+                || m.class == "ctx:opt:constraint-batching:accepted" || m.class == "ctx:opt:deep-batching:accepted" { tag = Some("optbyte"); }
+            // ... also when a byte-level class happens to change nothing but the FRI partition exponent
+            if m.bytes.len() == h.bytes.len() {
+                let np_pos = h.bytes.len() - 9;
+                let mut back = m.bytes.clone();
+                back[np_pos] = h.bytes[np_pos];
+                if back == h.bytes && m.bytes != h.bytes { tag = Some("npart"); }
+            }
         }
         out.count(&format!("mutation:{}", m.class));
         let oracle = match mode {
@@ -612,7 +624,7 @@ fn one(rng: &mut Rng, out: &mut Out, mode: Mode, it: usize) {
             },
         };
         let (b, pi, a) = (m.bytes.clone(), h.pub_in.clone(), m.acc.clone());
-        let req = request(&h, &m.acc, &m.bytes);
+        let req = match tag { Some(t) => request_tagged(t, &h, &m.acc, &m.bytes), None => request(&h, &m.acc, &m.bytes) };
         let mut got = String::new();
         out.case(&req, &oracle, || { let r = with_timeout(move || run_real(&b, pi, &a)); got = r.clone(); r });
         out.count(&format!("answer:{}", got.split(':').next().unwrap_or("").chars().take(48).collect::<String>()));
@@ -623,6 +635,150 @@ fn one(rng: &mut Rng, out: &mut Out, mode: Mode, it: usize) {
             let (b, pi, a2) = (h.bytes.clone(), h.pub_in.clone(), a.clone());
             out.case(&request(&h, &a, &h.bytes), "~^(ok|err )", || run_real(&b, pi, &a2));
         }
+        // repaired by /repo ceafb22 (both were predicted by the model): must be errors, not panics
+        modulus_length_class(out, &h, "~^err ");
+        if it % 2 == 0 { queries_domain_class(rng, out, it, "~^err "); }
+        // recorded findings of C05 (one root cause: verify() trusts the proof's TraceInfo before the AIR
+        // and its assertions are built): a proof for ANOTHER trace length, against this statement
+        cross_length_class(rng, out, &h, "~^(ok|err )");
+        if it % 2 == 1 { periodic_class(rng, out, "~^(ok|err )"); }
+    }
+    if mode == Mode::C04 {
+        // the four option bytes outside the seed under MinConjecturedSecurity (the verifier states no
+        // option set at all)
+        option_bytes_class(out, &h, true);
+    }
+}
+
+// ---------------------------------------------------------------------------------------------
+// classes found through the model's panic sites / unbound fields
+// ---------------------------------------------------------------------------------------------
+/// a context whose field-modulus bytes are padded with zero bytes to 14 / 15 / 16 / 40 bytes
+/// (before ceafb22: panic in from_bytes_with_padding for 15 and more)
+fn modulus_length_class(out: &mut Out, h: &Honest, oracle: &str) {
+    let by = &h.bytes;
+    let meta_len = by[4] as usize | ((by[5] as usize) << 8);
+    let mod_pos = 6 + meta_len;
+    let mod_len = by[mod_pos] as usize;
+    for new_len in [14usize, 15, 16, 40] {
+        let mut b = by[..mod_pos].to_vec();
+        b.push(new_len as u8);
+        b.extend(&by[mod_pos + 1..mod_pos + 1 + mod_len]);
+        b.extend(vec![0u8; new_len - mod_len]);
+        b.extend(&by[mod_pos + 1 + mod_len..]);
+        let acc = Acc::Set(vec![h.opts.clone()]);
+        out.count("mutation:modulus-length");
+        let (bb, pi, a) = (b.clone(), h.pub_in.clone(), acc.clone());
+        out.case(&request_tagged("modlen", h, &acc, &b), oracle, || run_real(&bb, pi, &a));
+    }
+}
+
+/// options whose number of queries is not below the LDE domain size; the proof comes from a prover
+/// whose coin has no assertion (before ceafb22: panic in draw_integers)
+fn queries_domain_class(rng: &mut Rng, out: &mut Out, it: usize, oracle: &str) {
+    let inst = gen_small_instance(rng, 3, 3);
+    let mut opts = gen_options(rng, &inst);
+    opts.g = 0;
+    opts.q = *[inst.n * opts.b, inst.n * opts.b + 5, 255].get((it / 2) % 3).unwrap();
+    if let Some((pub_in, proof)) = prove_lenient(&inst, &opts) {
+        let h = Honest { bytes: proof.to_bytes(), inst, opts, pub_in, proof };
+        for acc in [Acc::Set(vec![h.opts.clone()]), Acc::Conj(20)] {
+            out.count("mutation:queries>=domain");
+            let (bb, pi, a) = (h.bytes.clone(), h.pub_in.clone(), acc.clone());
+            out.case(&request_tagged("qdom", &h, &acc, &h.bytes), oracle, || run_real(&bb, pi, &a));
+        }
+    } else { out.count("queries>=domain:prover-failed"); }
+}
+
+/// the same description proved for other trace lengths (with one assertion that is valid there),
+/// verified against the statement of `h` (whose assertions need not be valid for that length)
+fn cross_length_class(rng: &mut Rng, out: &mut Out, h: &Honest, oracle: &str) {
+    for n2 in [8usize, h.inst.n * 2] {
+        if n2 == h.inst.n { continue; }
+        let mut inst2 = Instance { desc: h.inst.desc.clone(), n: n2, init: h.inst.init.clone(), overrides: vec![] };
+        inst2.desc.asserts = vec![crate::genair::AssertD { kind: 0, col: 0, first: 0, stride: 0, values: vec![h.inst.init[0] % P64] }];
+        if inst2.desc.periodic.iter().any(|p| p.len() > n2) { continue; }
+        let mut o2 = h.opts.clone();
+        if !fri_compatible(n2, o2.f, o2.rd) { o2.f = 2; o2.rd = 3; }
+        while o2.q >= n2 * o2.b { o2.q /= 2; }
+        o2.q = o2.q.max(1);
+        let _ = rng;
+        let Some((_, p2)) = prove(&inst2, &o2) else { out.count("cross-length:second-proof-failed"); continue; };
+        let b2 = p2.to_bytes();
+        let acc = Acc::Set(vec![o2.clone()]);
+        out.count("mutation:cross-length");
+        let (bb, pi, a) = (b2.clone(), h.pub_in.clone(), acc.clone());
+        let mut got = String::new();
+        out.case(&request_tagged("xlen", h, &acc, &b2), oracle, || { let r = run_real(&bb, pi, &a); got = r.clone(); r });
+        out.count(&format!("answer:xlen:{}", got.chars().take(48).collect::<String>()));
+    }
+}
+
+fn strip_periodic(e: &crate::genair::Ex) -> crate::genair::Ex {
+    use crate::genair::Ex;
+    match e {
+        Ex::Per(_) => Ex::K(1),
+        Ex::Add(a, b) => Ex::Add(Box::new(strip_periodic(a)), Box::new(strip_periodic(b))),
+        Ex::Sub(a, b) => Ex::Sub(Box::new(strip_periodic(a)), Box::new(strip_periodic(b))),
+        Ex::Mul(a, b) => Ex::Mul(Box::new(strip_periodic(a)), Box::new(strip_periodic(b))),
+        other => other.clone(),
+    }
+}
+
+/// a statement with a periodic column of more than 8 values, and a (parseable) proof announcing a
+/// trace of 8 rows: made by the real prover for the description WITHOUT its periodic columns, which
+/// has the same shape (for a trace shorter than a cycle the cycle does not contribute to the degree
+/// bookkeeping); the verifier reaches get_periodic_column_polys before any commitment is checked
+fn periodic_class(rng: &mut Rng, out: &mut Out, oracle: &str) {
+    let mut found = None;
+    for _ in 0..200 {
+        let inst = gen_instance_shaped(rng, P64, 4, 5, true, true);
+        if inst.desc.aux_width == 0 && inst.desc.width <= 4 && inst.desc.periodic.iter().any(|p| p.len() > 8) { found = Some(inst); break; }
+    }
+    let Some(inst) = found else { out.count("periodic-class:no-instance"); return; };
+    let opts = gen_options(rng, &inst);
+    let claimed: Vec<Vec<u128>> = inst.desc.asserts.iter().map(|a| a.values.clone()).collect();
+    let pub_in = PubIn { desc: Arc::new(inst.desc.clone()), claimed, conv: c64 as fn(u128) -> B };
+    let mut inst2 = Instance { desc: inst.desc.clone(), n: 8, init: inst.init.clone(), overrides: vec![] };
+    inst2.desc.periodic = vec![];
+    for t in inst2.desc.trans.iter_mut() { t.ex = strip_periodic(&t.ex); t.cycles = vec![]; }
+    for g in inst2.desc.gen.iter_mut() { *g = strip_periodic(g); }
+    inst2.desc.asserts = vec![crate::genair::AssertD { kind: 0, col: 0, first: 0, stride: 0, values: vec![inst.init[0] % P64] }];
+    inst2.desc.exemptions = inst2.desc.exemptions.min(2);
+    let mut o2 = opts.clone();
+    if !fri_compatible(8, o2.f, o2.rd) { o2.f = 2; o2.rd = 3; }
+    while o2.q >= 8 * o2.b { o2.q /= 2; }
+    o2.q = o2.q.max(1);
+    let Some((_, p2)) = prove(&inst2, &o2) else { out.count("periodic-class:second-proof-failed"); return; };
+    // the verifier's AIR must announce the same number of exemptions for the shapes to agree
+    let mut stmt = Instance { desc: inst.desc.clone(), n: inst.n, init: inst.init.clone(), overrides: inst.overrides.clone() };
+    stmt.desc.exemptions = inst2.desc.exemptions;
+    let pub_in = PubIn { desc: Arc::new(stmt.desc.clone()), ..pub_in };
+    let h = Honest { bytes: p2.to_bytes(), inst: stmt, opts: o2.clone(), pub_in, proof: p2 };
+    let acc = Acc::Set(vec![o2]);
+    out.count("mutation:periodic-longer-than-trace");
+    let (bb, pi, a) = (h.bytes.clone(), h.pub_in.clone(), acc.clone());
+    let mut got = String::new();
+    out.case(&request_tagged("xper", &h, &acc, &h.bytes), oracle, || { let r = run_real(&bb, pi, &a); got = r.clone(); r });
+    out.count(&format!("answer:xper:{}", got.chars().take(48).collect::<String>()));
+}
+
+/// one of the four option bytes outside the seed changed to another valid value; `conj`: the
+/// verifier accepts by MinConjecturedSecurity(0), otherwise by an option set containing both
+fn option_bytes_class(out: &mut Out, h: &Honest, conj: bool) {
+    let meta_len = h.bytes[4] as usize | ((h.bytes[5] as usize) << 8);
+    let opt_pos = 6 + meta_len + 1 + h.bytes[6 + meta_len] as usize;
+    for (i, name) in [(8usize, "partitions"), (9usize, "hash-rate"), (6usize, "constraint-batching"), (7usize, "deep-batching")] {
+        let mut a2 = h.opts.clone();
+        match i { 8 => a2.np = if a2.np == 1 { 2 } else { a2.np - 1 }, 9 => a2.hr = if a2.hr == 1 { 2 } else { a2.hr - 1 }, 6 => a2.bc = (a2.bc + 1) % 3, _ => a2.bd = (a2.bd + 1) % 3 }
+        let enc = a2.build().to_bytes();
+        let mut b = h.bytes.clone();
+        b[opt_pos + i] = enc[i];
+        let acc = if conj { Acc::Conj(0) } else { Acc::Set(vec![h.opts.clone(), a2.clone()]) };
+        let same = Proof::from_bytes(&b).map(|p| p == h.proof).unwrap_or(false);
+        out.count(&format!("mutation:optbyte:{name}:{}", if conj { "conj" } else { "two-sets" }));
+        let (bb, pi, a, orc) = (b.clone(), h.pub_in.clone(), acc.clone(), if same { "ok" } else { "~^(err |PANIC )" });
+        out.case(&request_tagged("optbyte", h, &acc, &b), orc, || run_real(&bb, pi, &a));
     }
 }
 
@@ -724,90 +880,28 @@ fn prove_lenient(inst: &Instance, opts: &Opts) -> Option<(PubIn<B>, Proof)> {
     match res { Ok(Ok(proof)) => Some((pub_in, proof)), _ => None }
 }
 
+/// all classes found through the model in one place (for replays; every class is also part of a
+/// checked stream)
 pub fn run_x(rng: &mut Rng, out: &mut Out, n: usize) {
     install_hook();
     for it in 0..n {
-        // (a) a context whose field-modulus bytes are padded with zero bytes to 15.. bytes
-        if let Some(h) = make_honest(rng, 3, 4) {
-            let by = &h.bytes;
-            let meta_len = by[4] as usize | ((by[5] as usize) << 8);
-            let mod_pos = 6 + meta_len;
-            let mod_len = by[mod_pos] as usize;
-            for new_len in [14usize, 15, 16, 40] {
-                let mut b = by[..mod_pos].to_vec();
-                b.push(new_len as u8);
-                b.extend(&by[mod_pos + 1..mod_pos + 1 + mod_len]);
-                b.extend(vec![0u8; new_len - mod_len]);
-                b.extend(&by[mod_pos + 1 + mod_len..]);
-                let acc = Acc::Set(vec![h.opts.clone()]);
-                out.count("x:modulus-length");
-                let (bb, pi, a) = (b.clone(), h.pub_in.clone(), acc.clone());
-                out.case(&request(&h, &acc, &b), "~^(ok|err )", || run_real(&bb, pi, &a));
-            }
+        if let Some(h) = make_honest(rng, 4, 5) {
+            modulus_length_class(out, &h, "~^err ");
+            cross_length_class(rng, out, &h, "~^(ok|err )");
+            option_bytes_class(out, &h, false);
+            option_bytes_class(out, &h, true);
         }
-        // (b) a proof for ANOTHER trace length, checked against the statement of the first one
-        {
-            let inst = gen_small_instance(rng, 4, 5);
-            let opts = gen_options(rng, &inst);
-            if let Some((pub_in, proof)) = prove(&inst, &opts) {
-                let h = Honest { bytes: proof.to_bytes(), inst, opts, pub_in, proof };
-                for n2 in [8usize, h.inst.n * 2] {
-                    let mut inst2 = Instance { desc: h.inst.desc.clone(), n: n2, init: h.inst.init.clone(), overrides: vec![] };
-                    inst2.desc.asserts = vec![crate::genair::AssertD { kind: 0, col: 0, first: 0, stride: 0, values: vec![h.inst.init[0] % P64] }];
-                    if inst2.desc.periodic.iter().any(|p| p.len() > n2) && n2 > h.inst.n { continue; }
-                    let mut o2 = h.opts.clone();
-                    if !fri_compatible(n2, o2.f, o2.rd) { o2.f = 2; o2.rd = 3; }
-                    while o2.q >= n2 * o2.b { o2.q /= 2; }
-                    let proof2 = if inst2.desc.periodic.iter().any(|p| p.len() > n2) { None } else { prove(&inst2, &o2) };
-                    let Some((_, p2)) = proof2 else { out.count("x:cross-length:second-proof-failed"); continue; };
-                    let b2 = p2.to_bytes();
-                    let acc = Acc::Set(vec![o2.clone()]);
-                    out.count("x:cross-length");
-                    let (bb, pi, a) = (b2.clone(), h.pub_in.clone(), acc.clone());
-                    out.case(&request(&h, &acc, &b2), "~^(ok|err )", || run_real(&bb, pi, &a));
-                }
-            }
-        }
-        // (d) C04: FRI partition exponent of a proof without FRI layers; (e) C04: partition options of
-        // the context changed to another valid value that the verifier accepts as well
+        queries_domain_class(rng, out, 2 * it, "~^err ");
+        periodic_class(rng, out, "~^(ok|err )");
         if let Some(h) = make_honest(rng, 3, 3) {
             let l = layout(&h);
-            let same = |b: &[u8]| Proof::from_bytes(b).map(|p| p == h.proof).unwrap_or(false);
             let mut b = h.bytes.clone();
             b[l.np_pos] = b[l.np_pos].wrapping_add(1);
             let acc = Acc::Set(vec![h.opts.clone()]);
-            out.count(&format!("x:fri-num-partitions:layers={}", h.bytes[l.nl_pos]));
-            let (bb, pi, a, orc) = (b.clone(), h.pub_in.clone(), acc.clone(), if same(&b) { "ok" } else { "~^(err |PANIC )" });
-            out.case(&request(&h, &acc, &b), orc, || run_real(&bb, pi, &a));
-            let meta_len = h.bytes[4] as usize | ((h.bytes[5] as usize) << 8);
-            let opt_pos = 6 + meta_len + 1 + h.bytes[6 + meta_len] as usize;
-            for (i, name) in [(8usize, "partitions"), (9usize, "hash-rate"), (6usize, "constraint-batching"), (7usize, "deep-batching")] {
-                let mut a2 = h.opts.clone();
-                match i { 8 => a2.np = if a2.np == 1 { 2 } else { a2.np - 1 }, 9 => a2.hr = if a2.hr == 1 { 2 } else { a2.hr - 1 }, 6 => a2.bc = (a2.bc + 1) % 3, _ => a2.bd = (a2.bd + 1) % 3 }
-                let enc = a2.build().to_bytes();
-                let mut b = h.bytes.clone();
-                b[opt_pos + i] = enc[i];
-                for acc in [Acc::Set(vec![h.opts.clone(), a2.clone()]), Acc::Conj(0)] {
-                    out.count(&format!("x:ctx-opt:{name}"));
-                    let (bb, pi, a, orc) = (b.clone(), h.pub_in.clone(), acc.clone(), if same(&b) { "ok" } else { "~^(err |PANIC )" });
-                    out.case(&request(&h, &acc, &b), orc, || run_real(&bb, pi, &a));
-                }
-            }
-        }
-        // (c) options whose number of queries is not below the LDE domain size
-        {
-            let inst = gen_small_instance(rng, 3, 3);
-            let mut opts = gen_options(rng, &inst);
-            opts.g = 0;
-            opts.q = *[inst.n * opts.b, inst.n * opts.b + 5, 255].get(it % 3).unwrap();
-            if let Some((pub_in, proof)) = prove_lenient(&inst, &opts) {
-                let h = Honest { bytes: proof.to_bytes(), inst, opts, pub_in, proof };
-                for acc in [Acc::Set(vec![h.opts.clone()]), Acc::Conj(20)] {
-                    out.count("x:queries>=domain");
-                    let (bb, pi, a) = (h.bytes.clone(), h.pub_in.clone(), acc.clone());
-                    out.case(&request(&h, &acc, &h.bytes), "~^(ok|err )", || run_real(&bb, pi, &a));
-                }
-            } else { out.count("x:queries>=domain:prover-failed"); }
+            let same = Proof::from_bytes(&b).map(|p| p == h.proof).unwrap_or(false);
+            out.count(&format!("mutation:fri-num-partitions:layers={}", h.bytes[l.nl_pos]));
+            let (bb, pi, a, orc) = (b.clone(), h.pub_in.clone(), acc.clone(), if same { "ok" } else { "~^(err |PANIC )" });
+            out.case(&request_tagged("npart", &h, &acc, &b), orc, || run_real(&bb, pi, &a));
         }
     }
 }
